@@ -275,7 +275,29 @@ def run_print(chk, bindir, tier):
                 pass
         return [r for r in out if isinstance(r, dict) and "op" in r]
 
-    p = core.run_cmd([os.path.join(bindir, "iohelp"), "print", str(chk.seed), str(rounds)], timeout=900, check=False)
+    trips = chk.extra.setdefault("wall_clock_trips_not_reproduced", [])
+
+    def load_scale():
+        try:
+            return max(1.0, os.getloadavg()[0] / (os.cpu_count() or 1))
+        except OSError:
+            return 1.0
+
+    def run_mode(mode, n):
+        """print / pipe driver; its only wall-clock verdict is the SIGALRM watchdog: a death by SIGALRM is
+        re-run alone twice with a 5x (load-scaled) watchdog and believed only if it dies both times"""
+        p = core.run_cmd([os.path.join(bindir, "iohelp"), mode, str(chk.seed), str(n)], timeout=3000, check=False)
+        if p.returncode == -14:
+            scale = int(5 * load_scale()) + 1
+            again = [core.run_cmd([os.path.join(bindir, "iohelp"), mode, str(chk.seed), str(n)], timeout=20000, check=False,
+                                  env={"IOHELP_ALARM_SCALE": str(scale)}) for _ in range(2)]
+            good = [q for q in again if q.returncode != -14]
+            if good:
+                trips.append({"mode": mode, "what": "watchdog (SIGALRM) fired once, not in an isolated re-run with a %dx limit" % scale})
+                return good[0]
+        return p
+
+    p = run_mode("print", rounds)
     recs = parse(p)
     if p.returncode != 0:
         # the code under test brought the driver down (abort / segfault): data, not a tool failure
@@ -285,7 +307,7 @@ def run_print(chk, bindir, tier):
     elif not recs:
         raise core.ToolError("iohelp print produced nothing: " + p.stderr[-500:])
     # the helpers on a File over a kernel pipe, real EINTR / short transfers
-    p = core.run_cmd([os.path.join(bindir, "iohelp"), "pipe", str(chk.seed), str(3 if tier == "quick" else 40)], timeout=1800, check=False)
+    p = run_mode("pipe", 3 if tier == "quick" else 40)
     precs = parse(p)
     if p.returncode != 0:
         chk.violate({"op": "pipe", "kind": "crash"},
@@ -311,6 +333,28 @@ def run_print(chk, bindir, tier):
                     {"mode": "impl", "record": {"rc": p.returncode, "completed_runs": len(irecs)}})
     elif not irecs:
         raise core.ToolError("ioimpls produced nothing: " + p.stderr[-500:])
+    # a "hang" is a wall-clock verdict: each one is re-run ALONE twice with >= 5x the limit (more when the
+    # machine is loaded) and stays a hang only if it does not return in both; otherwise the re-run's
+    # record is judged instead and the trip is noted
+    for k, r in enumerate(list(irecs)):
+        if not r.get("hang"):
+            continue
+        lim = int(r.get("limit_s", 10) * 5 * load_scale()) + 1
+        rer = []
+        for j in range(2):
+            q = core.run_cmd([os.path.join(bindir, "ioimpls"), "%s-re%d-%d" % (idir, r["idx"], j)], timeout=lim * 3 + 600, check=False,
+                             env={"IOIMPLS_ONLY": str(r["idx"]), "IOIMPLS_LIMIT": str(lim)})
+            rr = [x for x in parse(q) if x.get("idx") == r["idx"]]
+            rer.append(rr[0] if rr else None)
+            if rr and not rr[0]["hang"]:
+                break
+        returned = [x for x in rer if x is not None and not x["hang"]]
+        if returned:
+            trips.append({"mode": "impl", "imp": r["imp"], "kind": r["kind"], "case": r["case"],
+                          "what": "no answer within %d s in the full run, returned in an isolated re-run (limit %d s)" % (r.get("limit_s", 10), lim)})
+            irecs[k] = returned[0]
+        else:
+            r["case"] += " [hang reproduced in 2 of 2 isolated re-runs with a limit of %d s]" % lim
     covered = sorted({r["imp"] for r in irecs})
     chk.extra["io_implementors_in_source"] = sorted(impls)
     chk.extra["io_implementors_driven"] = covered
